@@ -213,17 +213,21 @@ func (r *vC07Run) pair(ps string) (string, uint64) {
 	panic("unknown pair selector " + ps)
 }
 
-// prefer makes broker `pref` the least loaded one, so that an election (if the
-// code holds one) picks it among its candidates
+// prefer arranges the broker loads (the environment of an election): the current
+// leader is the least loaded broker of all, `pref` the least loaded of the others.
+// An election that (correctly) leaves the reported leader out picks `pref` among
+// its candidates; one that does not would pick the reported leader again.
 func (r *vC07Run) prefer(pref string) {
 	m := r.srv.metadata
+	leader, _ := r.p.GetLeader()
 	m.stats.Lock()
 	for _, x := range vC07Replicas {
 		m.stats.brokerLeaderLoad[x] = 5
 	}
 	if pref != "" && pref != "none" {
-		m.stats.brokerLeaderLoad[pref] = 0
+		m.stats.brokerLeaderLoad[pref] = 1
 	}
+	m.stats.brokerLeaderLoad[leader] = 0
 	m.stats.Unlock()
 }
 
